@@ -160,11 +160,13 @@ Definition total_step (M : list (list Z)) (nc : nat) (acc : Z) (ix : nat * Z) : 
 Definition total_cost (M : list (list Z)) (a : list Z) : Z :=
   fold_left (total_step M (n_cols M)) (combine (seq 0 (length a)) a) 0.
 
-(* ---------- solve_hungarian: Some (assignment, objective), None = fuel / inf error *)
-Definition solve (M : list (list Z)) (minimize : bool) : option (list Z * Z) :=
+(* ---------- solve_hungarian: Some (assignment, objective), None = fuel / inf error.
+   `pinned = true` is the behaviour of the tree before fix 05cf383 (early return `Result([], 0.0, 0, 0)`),
+   `pinned = false` the current code: `Result([-1] * len(cost_matrix), 0.0, 0, 0)`. *)
+Definition solve_gen (pinned : bool) (M : list (list Z)) (minimize : bool) : option (list Z * Z) :=
   match M with
   | [] => Some ([], 0)
-  | [] :: _ => Some ([], 0)            (* `not cost_matrix[0]`: also for several empty rows *)
+  | [] :: _ => Some (if pinned then [] else repeat (-1) (length M), 0)   (* `not cost_matrix[0]` *)
   | _ =>
       let nr := n_rows M in
       let nc := n_cols M in
@@ -176,6 +178,9 @@ Definition solve (M : list (list Z)) (minimize : bool) : option (list Z * Z) :=
           Some (a, total_cost M a)
       end
   end.
+
+Definition solve : list (list Z) -> bool -> option (list Z * Z) := solve_gen false.
+Definition solve_pinned : list (list Z) -> bool -> option (list Z * Z) := solve_gen true.
 
 (* final potentials and matching, for the per-run optimality certificate *)
 Definition solve_state (M : list (list Z)) (minimize : bool) : option hstate :=
